@@ -732,6 +732,102 @@ theorem neg_without_ttl_never_clamps (cfg : TtlConfig) (s : State) (q : Query) (
     ∃ s', Cache.insert cfg s q (.neg n) t = .ok s' := by
   simp [Cache.insert, negTtlOf, h, store, instantAdd, hr]
 
+/-! #### the known-finding class `C15.bounds-over-u32` delimits the partial hypotheses -/
+
+theorem overU32_for {cfg : TtlConfig} (h : cfg.overU32 = false) (ty : Nat) :
+    (cfg.boundsFor ty).overU32 = false := by
+  unfold TtlConfig.overU32 at h
+  simp only [Bool.or_eq_false_iff, List.any_eq_false] at h
+  rcases boundsFor_cases cfg ty with e | ⟨k, hk⟩
+  · rw [e]; exact h.1
+  · simpa using h.2 _ hk
+
+theorem secsU32_of_lt {d : Nat} (h : d < 4294967296 * NS) : secsU32 d = d / NS := by
+  unfold secsU32 U32MAX NS at *
+  split
+  · rfl
+  · omega
+
+theorem bounds_lt_of_not_over {b : Bounds} (h : b.overU32 = false) :
+    b.posMin.getD 0 < 4294967296 * NS ∧ b.posMax.getD (MAX_TTL * NS) < 4294967296 * NS ∧
+    b.negMin.getD 0 < 4294967296 * NS ∧ b.negMax.getD (MAX_TTL * NS) < 4294967296 * NS := by
+  unfold Bounds.overU32 at h
+  simp only [List.any_cons, List.any_nil, Bool.or_false, Bool.or_eq_false_iff] at h
+  obtain ⟨h1, h2, h3, h4⟩ := h
+  have hd : MAX_TTL * NS < 4294967296 * NS := by decide
+  have h0 : 0 < 4294967296 * NS := by decide
+  refine ⟨?_, ?_, ?_, ?_⟩
+  · cases hx : b.posMin with
+    | none => exact h0
+    | some v => simp only [hx, decide_eq_false_iff_not] at h1; simp only [Option.getD_some]; omega
+  · cases hx : b.posMax with
+    | none => exact hd
+    | some v => simp only [hx, decide_eq_false_iff_not] at h2; simp only [Option.getD_some]; omega
+  · cases hx : b.negMin with
+    | none => exact h0
+    | some v => simp only [hx, decide_eq_false_iff_not] at h3; simp only [Option.getD_some]; omega
+  · cases hx : b.negMax with
+    | none => exact hd
+    | some v => simp only [hx, decide_eq_false_iff_not] at h4; simp only [Option.getD_some]; omega
+
+/-- Outside the class, ordered `Duration` bounds give ordered `u32` second bounds. -/
+theorem secsOK_of_not_overU32 {cfg : TtlConfig} (hd : DurOK cfg) (ho : cfg.overU32 = false) :
+    SecsOK cfg := by
+  have key : ∀ b : Bounds, b.durOK = true → b.overU32 = false → b.secsOK = true := by
+    intro b hb hov
+    obtain ⟨l1, l2, _, _⟩ := bounds_lt_of_not_over hov
+    simp only [Bounds.durOK, Bool.and_eq_true, decide_eq_true_eq] at hb
+    simp only [Bounds.secsOK, decide_eq_true_eq, secsU32_of_lt l1, secsU32_of_lt l2]
+    exact Nat.div_le_div_right hb.1
+  unfold DurOK TtlConfig.durOK at hd
+  unfold TtlConfig.overU32 at ho
+  unfold SecsOK TtlConfig.secsOK
+  simp only [Bool.and_eq_true, List.all_eq_true, Bool.or_eq_false_iff, List.any_eq_false] at hd ho ⊢
+  exact ⟨key _ hd.1 ho.1, fun p hp => key _ (hd.2 p hp) (by simpa using ho.2 p hp)⟩
+
+/-- Outside the class the stored TTL is the literal clamp to the configured bounds in whole seconds. -/
+theorem storedTtl_literal {cfg : TtlConfig} (ho : cfg.overU32 = false) (r : Rec) :
+    storedTtl cfg r = clampM r.ttl ((cfg.posBounds r.rtype).1 / NS) ((cfg.posBounds r.rtype).2 / NS) := by
+  obtain ⟨l1, l2, _, _⟩ := bounds_lt_of_not_over (overU32_for ho r.rtype)
+  unfold storedTtl TtlConfig.posBoundsSecs TtlConfig.posBounds
+  simp only [secsU32_of_lt l1, secsU32_of_lt l2]
+
+theorem lifetime_lt_of_not_over {cfg : TtlConfig} (hd : DurOK cfg) (ho : cfg.overU32 = false)
+    (qt : Nat) (r : Res) : lifetime cfg qt r < 4294967296 * NS := by
+  obtain ⟨_, l2, l3, l4⟩ := bounds_lt_of_not_over (overU32_for ho qt)
+  cases r with
+  | other k => simp only [lifetime]; decide
+  | pos m =>
+    have := (posLife_bounds hd qt m).2
+    simp only [lifetime]
+    exact Nat.lt_of_le_of_lt this l2
+  | neg n =>
+    simp only [lifetime, negLife]
+    cases n.negTtl with
+    | none => exact l3
+    | some t => exact Nat.lt_of_le_of_lt (clampM_le _ (negBounds_le hd qt)) l4
+
+/-- **No panic**, in terms of the configuration alone: every bound ordered (`min ≤ max`) and below
+`2^32 s`, any instant up to `2^62 s` after the base: `insert` returns normally. -/
+theorem no_panic_within_u32 {cfg : TtlConfig} (hd : DurOK cfg) (ho : cfg.overU32 = false) (s : State)
+    (q : Query) (r : Res) (t : Nat) (ht : t ≤ 4611686018427387904 * NS) :
+    ∃ s', Cache.insert cfg s q r t = .ok s' := by
+  apply no_panic_partial hd (secsOK_of_not_overU32 hd ho)
+  have := lifetime_lt_of_not_over hd ho q.qtype r
+  unfold INSTANT_LIMIT NS at *
+  omega
+
+/-- global `positive_max_ttl = 2^33 s` -/
+def cfgBigMax : TtlConfig := { default := { posMax := some (8589934592 * NS) } }
+
+/-- counter-example to the literal reading of "clamped to the configured bounds" inside the class:
+a TTL of 100 000 s lies within `[0, 2^33 s]`, yet it is stored as 86 400. -/
+theorem stored_ttl_counterexample_over_u32 :
+    cfgBigMax.overU32 = true ∧ cfgBigMax.durOK = true ∧ cfgBigMax.secsOK = true ∧
+    storedTtl cfgBigMax { rtype := 1, ttl := 100000, pid := 0 } = 86400 ∧
+    clampM 100000 ((cfgBigMax.posBounds 1).1 / NS) ((cfgBigMax.posBounds 1).2 / NS) = 100000 := by decide
+
+
 /-! ### non-vacuity: the hypotheses are satisfiable and the conclusions are about real answers -/
 
 /-- per-type override for A (min 10 s, max 60 s), global max 1 h, negative bounds 5 s … 30 s -/
@@ -773,5 +869,9 @@ example : Cache.get (run cfgEx [] histEx) ⟨1, 16⟩ (32 * NS) =
     some (.neg { negTtl := some 870, soa := some { rtype := 6, ttl := 870, pid := 4 }, rcode := 3 }) ∧
     Cache.get (run cfgEx [] histEx) ⟨1, 16⟩ (32 * NS + 1) = none := by decide
 example : noRefresh qA [.ins ⟨1, 16⟩ (.neg negEx) 5, .ins qA (.other 0) 6, .get qA 7] = true := by decide
+
+example : cfgSecsInverted.overU32 = true ∧ cfgHuge.overU32 = true ∧ cfgEx.overU32 = false := by decide
+example : ∃ s', Cache.insert cfgEx [] qA (.pos msgEx) (5 * NS) = .ok s' :=
+  no_panic_within_u32 (by unfold DurOK; decide) (by decide) _ _ _ _ (by decide)
 
 end HickoryVerif.C15
